@@ -18,6 +18,15 @@ CLAIMED = {
  "C05": dict(cat="proof", tech="Coq theorems: span exact (left/right/stride) and bounded (padded); differential correspondence exact resp. against the proved bounds",
    text="Theorems C05_exact_lrs, C05_largest_offset, C05_left_right_product, C05_padded_left/right. Correspondence: exact comparison for left/right/stride, property bounds (0 for empty, 1 for rank 0, max offset+1 <= span <= padded stride*rest) for the padded layouts evaluated on the implementation's own output.",
    ref="4/C05"),
+ "C07": dict(cat="proof", tech="Coq counting theorem (exhaustive <=> covers), strided/unique/always theorems; flag correspondence",
+   text="Theorems C07_exhaustive_sound, C07_exhaustive_exact (is_exhaustive() = true <=> every offset below required_span_size is hit, by a counting argument over the enumerated index space, all ranks), C07_covers_iff_count, C07_strided, C07_unique, C07_always_exhaustive_padded, C07_always_flags, C07_forward. Correspondence: is_exhaustive compared exactly on non-empty index spaces, every other flag checked for overstatement only; mdspan's flags compared with its mapping's.",
+   ref="4/C07"),
+ "C13": dict(cat="proof", tech="Coq theorems on size()/empty() as implemented (size_t fold, modular conversion); observer correspondence incl. C++14 fold emulation builds",
+   text="Theorems C13_size_general (size() = product mod 2^width(size_type), computed in size_t), C13_size_representable, C13_size_valid, C13_size_rank0, C13_empty_iff, C13_empty_rank0, C13_forwarders. Correspondence compares size/empty/extent/stride/rank/rank_dynamic/static_extent of an mdspan over every generated mapping, in C++14 (fold emulation), 17 and 23 builds of g++ and clang++.",
+   ref="4/C13"),
+ "C14": dict(cat="proof", tech="Coq no-UB theorems (every model function returns Ok on admissible input); UBSan/ASan differential runs at the representability boundary",
+   text="Theorems C14_operator_call, C14_required_span_size, C14_stride, C14_strides, C14_is_exhaustive, C14_size, C14_find_next_multiple, C14_padded_construction, C14_default_stride: the implementation model, which makes signed overflow / zero divisors / out-of-range internal indexing an explicit UB result, returns Ok on every admissible input. Run-time correspondence under -fsanitize=address,undefined (g++ and clang++) on boundary inputs: a trap on an input the model accepts is a violation with that input as replay.",
+   ref="4/C14"),
 }
 PENDING_REASON = "check under construction in this session (Coq theorems and correspondence driver not yet committed); not claimed until both exist"
 
